@@ -240,10 +240,11 @@ func (m *mappers) ToCharRange(r comb.Result) (comb.Result, bool) {
 		m.errors = errors.Join(m.errors, fmt.Errorf("invalid character range %s-%s", string(low), string(up)))
 	}
 
-	if up > unicode.MaxRune {
-		// An end point beyond the last code point is not a character (and enumerating up to it would not terminate).
-		m.errors = errors.Join(m.errors, fmt.Errorf("invalid character range %s-\\x%X", string(low), up))
-		up = low
+	if low < 0 || low > unicode.MaxRune || up > unicode.MaxRune {
+		// An end point that is not a code point (an eight-digit escape beyond the last code point, or one that
+		// overflows) is not a character, and enumerating from or up to it would not terminate.
+		m.errors = errors.Join(m.errors, fmt.Errorf("invalid character range \\x%X-\\x%X", uint32(low), uint32(up)))
+		low, up = unicode.ReplacementChar, unicode.ReplacementChar
 	}
 
 	nfa, chars := runeRangesToNFA(false, [2]rune{low, up})
